@@ -40,8 +40,8 @@ def uniq():
     """alphabetic token unique per harness build, so no factory state carries over between builds"""
     n = next(_COUNTER)
     s = ''
-    while n:
-        n, r = divmod(n, 26)
+    for _ in range(6):              # fixed length: code that scans a name character by character must take the same
+        n, r = divmod(n, 26)        # number of steps in every execution (a tag that grows made replays diverge)
         s += chr(ord('a') + r)
     return 'Q' + s
 
